@@ -2,6 +2,8 @@
 lengths through the real function with a stub network that only answers `link_from_link_id`."""
 from __future__ import annotations
 
+from . import framework as fw  # noqa: E402
+
 import logging
 import random
 from typing import Any, Dict, List
@@ -71,7 +73,7 @@ def gen_case(rng: random.Random, k: int) -> Dict[str, Any]:
         oracle.link_lookups[lid] = l
     enc = oracle.encode(n)
     rec: Dict[str, Any] = {"op": "traverse", "id": f"t{k}", "route": enc_route(n, route), "dt": dt, "oracle": enc,
-                           "skip": oracle.boundary_hit}
+                           "skip": oracle.boundary_hit, "cellKm": q(h3.edge_length(res, unit="km"))}
     if err is not None:
         rec["kind"] = "error"
     elif res_ is None:
@@ -111,5 +113,5 @@ def worker(args) -> Dict[str, Any]:
             findings.append({"id": r["id"], "kind": "diff", "text": o["diff"][:8], "record": r})
         elif o.get("mon"):
             findings.append({"id": r["id"], "kind": "mon", "text": o["mon"][:8], "record": r})
-    return {"n": len(recs), "findings": findings[:20], "n_findings": len(findings), "shapes": sorted(shapes),
+    return {"n": len(recs), "findings": fw.pick(findings, 20), "n_findings": len(findings), "shapes": sorted(shapes),
             "skipped": skipped, "sample": {k: recs[0][k] for k in ("route", "dt", "kind")}}
